@@ -177,6 +177,7 @@ const (
 	KOpaque // external value type modelled as an uninterpreted sort
 	KTime   // time.Time: sec (BV64 signed), nsec (BV64)
 	KUnsafePtr
+	KEmpty // zero-size values ([0]T, struct{}): no components
 )
 
 var sizes = types.SizesFor("gc", "amd64")
@@ -240,6 +241,9 @@ func kindOf(t types.Type) Kind {
 	case *types.Struct:
 		return KStruct
 	case *types.Array:
+		if u.Len() == 0 {
+			return KEmpty
+		}
 		return KArray
 	case *types.Map:
 		return KMap
@@ -446,6 +450,8 @@ func isScalarType(t types.Type) bool {
 // leaves flattens a type into scalar components.
 func (w *World) leaves(t types.Type) []Leaf {
 	switch kindOf(t) {
+	case KEmpty:
+		return nil
 	case KSlice:
 		return []Leaf{{"base", SBV64}, {"off", SBV64}, {"len", SBV64}, {"cap", SBV64}}
 	case KIface:
@@ -487,6 +493,8 @@ func (w *World) buildVal(t types.Type, prefix string, f func(path string, s Sort
 		return prefix + a
 	}
 	switch k {
+	case KEmpty:
+		return &SVal{T: t, K: KEmpty}
 	case KSlice:
 		v := &SVal{T: t, K: k}
 		for _, n := range []string{"base", "off", "len", "cap"} {
@@ -518,6 +526,8 @@ func flatten(v *SVal) []string {
 		panic(unsupported("flatten nil value"))
 	}
 	switch v.K {
+	case KEmpty:
+		return nil
 	case KSlice, KIface, KTime, KStruct, KTuple:
 		var out []string
 		for _, s := range v.Sub {
